@@ -22,7 +22,8 @@ def main():
         rows.append('| %s | %s | %s | %s | %s |' % (f['id'], f['property'], f['status'], f.get('commit', '-'), f['what'].replace('|', '/')))
     s = block('findings', '\n'.join(rows), s)
     rows = ['| seeded id | property | what was changed | needs to manifest | quick check |', '|---|---|---|---|---|']
-    for d in sorted(x for x in glob.glob(os.path.join(V, 'seeded', '*')) if os.path.isdir(x)):
+    for d in sorted((x for x in glob.glob(os.path.join(V, 'seeded', '*')) if os.path.isdir(x)),
+                    key=lambda x: (os.path.basename(x).split('-')[0], int(os.path.basename(x).split('-')[1]))):
         m = json.load(open(os.path.join(d, 'meta.json')))
         res = 'caught' if m.get('caught_by_quick_check') else ('not asserted (outside what the check demands, see meta.json)' if m.get('not_asserted') else 'MISSED')
         if m.get('history'):
